@@ -1146,6 +1146,17 @@ impl Mon {
 
     // ------------------------------------------------------------- ready / apply
 
+    pub fn on_accessors(&mut self, ni: usize, viewed: usize, taken: usize, op: usize) {
+        if self.on(P07) && viewed != taken {
+            self.violation(
+                "C07",
+                "accessors-disagree",
+                format!("node {}: Ready::messages() shows {} messages but take_messages() hands out {}", ni + 1, viewed, taken),
+                op,
+            );
+        }
+    }
+
     pub fn on_has_ready(&mut self, ni: usize, has: bool, nonempty: bool, op: usize) {
         if self.on(P07) && has != nonempty {
             self.violation(
